@@ -202,6 +202,9 @@ def covering_files(rng):
         ['PART 1 21.0', 'C9 1 0.5 0.5 0.5 11.0 0.04', 'PART 2 -21.0', 'C8 1 0.6 0.5 0.5 11.0 0.04', 'PART 0'],
         ['AFIX 137', 'H1 2 0.5 0.5 0.5 11.0 -1.5', 'H2 2 0.6 0.5 0.5 11.0 -1.5', 'AFIX 0'],
         ['C9 1 10.25 0.5 -10.333333 11.0 0.04'], ['C9 1 20.5 0.5 0.25 21.0 0.04'], ['C9 1 0.123456 0.999999 -0.000001 10.25 0.01234 0.02345 0.03456 -0.00123 0.00234 0.00345'],
+        ['C9 1 0.5 0.5 0.5 11.0 10.08'], ['C9 1 0.5 0.5 0.5 11.0 0.02 0.03 10.04 0.001 10.0 0.002'], ['C9 1 0.5 0.5 0.5 11.0 21.0'],
+        ['FRAG 17', 'C1 1 1.0 2.0 3.0', 'C2 1 2.0 2.0 3.0', 'FEND', 'AFIX 66', 'C9 1 0.5 0.5 0.5 10.5 0.03', 'C8 1 0.6 0.5 0.5 10.5 0.01 0.02 0.03 0.001 0.002 0.003', 'AFIX 0'],
+        ['FRAG 17 1 1 1 90 90 90', 'C1 1 1.0 2.0 3.0', 'FEND', 'AFIX 173', 'C9 1 0.5 0.5 0.5 21.0 0.03', 'AFIX 0', 'C8 1 0.6 0.5 0.5 11.0 0.04'],
         ['C9 1 0.5 0.5 0.5'], ['C9 1 0.5 0.5 0.5 10.5'], ['C9 1 0.5 0.5 0.5 -31.0 31.0'], ['C9 1 0.5 0.5 0.5 11.0 -1.2'],
     ]
     for sp in special:
